@@ -204,3 +204,14 @@ C("C18", "TestC18", P(20000, timeout=900), P(150000, 16, 3000), fuzz={"target": 
   level_text="Generated structural mutations of valid tables and (thorough) coverage-guided fuzzing; only crashes, non-termination and unbounded allocation are judged, any error return is fine. " + BOUNDED,
   level_note="The 60 s watchdog is the only timing-dependent signal; typical cases take microseconds.",
   assumptions=["object ids passed to RefsFor have the hash size of the table that was damaged"])
+
+C("C15", "TestC15", P(500, timeout=900), P(2500, 16, 2400), need_c=True,
+  rule="rapid-generated C01-style tables (4/5) and C07-style stack histories (1/5), NUL-free strings, in both directions: "
+       "Go writes -> the C implementation (c/*.c linked into a small driver, built with ASan+UBSan) answers full scans, SeekRef/SeekLog key classes and RefsFor; C writes -> Go scans, seeks and RefsFor; "
+       "stacks: Go Add/compaction histories read by the C stack; C stack additions/compactions read by Go NewStack; "
+       "oracle = both sides must equal the generated records / map model (hence each other); a crash or sanitizer report of the C code is a violation; "
+       "non-trivial = >=2 records and (several blocks or a log section) / stack with >=2 committed transactions; distinct = hash of the case JSON",
+  technique="differential property-based testing (rapid) between the Go and C implementations against a common reference model",
+  level_text="Generated tables and stacks cross-read by the two implementations; also the only check that executes the C half of the repository. " + BOUNDED,
+  level_note="The C merged table has no RefsFor entry point and the C stack cannot switch auto-compaction off: stacks are compared on scans and seeks, C-written stacks always auto-compact. One process spawn per direction and case.",
+  assumptions=[DOMAIN, "strings contain no NUL (C strings)", "system zlib and gcc with ASan/UBSan are available"])
